@@ -120,6 +120,35 @@ func checkDowngrade(r *Report, p *Prog) {
 	rule := "C08.downgrade"
 	mk := p.MustFunc("saml", "IdpAuthnRequest", "MakeAssertionEl")
 	sel, inlineSel := encCertSelector(p)
+	// whether a key is advertised is a fact of the registered metadata, not of the moment: the selector and the helpers
+	// it scans through compare no instants and read no clock (metadata past its validUntil "publishing no keys" is a
+	// silent fall back to clear text)
+	{
+		bad := ""
+		for _, f := range helperRegion(p, sel, 2) {
+			af := NewAnalysis(p)
+			ff := af.Ctx(f)
+			ff.ensureConds()
+			for _, b := range f.Blocks {
+				for _, nm := range af.B.Support(ff.Cond(b)) {
+					if ai := af.Atoms[nm]; ai != nil && ai.Kind == "before" {
+						bad = firstNonEmpty(bad, p.FnName(f)+" tests "+nm)
+					}
+				}
+				for _, in := range b.Instrs {
+					for _, op := range in.Operands(nil) {
+						if op == nil || *op == nil {
+							continue
+						}
+						if g, ok := (*op).(*ssa.Global); ok && g.Pkg != nil && strings.HasPrefix(g.Pkg.Pkg.Path(), modPath) && (g.Name() == "TimeNow" || g.Name() == "Clock") {
+							bad = firstNonEmpty(bad, p.FnName(f)+" reads "+g.Name()+" at "+p.InstrPos(in))
+						}
+					}
+				}
+			}
+		}
+		r.Check(bad == "", rule, p.FnName(sel)+": the advertised key does not depend on the time of the request", p.Pos(sel.Pos()), "no instant is compared and no clock is read in the selector and its helpers", "the certificate selection depends on time ("+bad+"): for some request times an SP that advertises an encryption key is treated as having none, and its assertion leaves in clear")
+	}
 	a := NewAnalysis(p)
 	B := a.B
 	fc := a.Ctx(mk)
